@@ -120,7 +120,15 @@ func (s ExploreRecursive) Explore(n datamodel.Node, p datamodel.PathSegment) (Se
 	switch limit.mode {
 	case RecursionLimit_Depth:
 		if limit.depth < 2 {
-			return s.replaceRecursiveEdge(nextSelector, nil), nil
+			// The limit is exhausted: the edges die, but what remains is still inside
+			// this recursion -- keep the wrapper, so that an edge nested deeper in the
+			// remainder is recognised (and dropped) when it is reached, instead of
+			// showing up bare and getting its node visited.
+			remainder := s.replaceRecursiveEdge(nextSelector, nil)
+			if remainder == nil {
+				return nil, nil
+			}
+			return ExploreRecursive{s.sequence, remainder, limit, s.stopAt}, nil
 		}
 		return ExploreRecursive{s.sequence, s.replaceRecursiveEdge(nextSelector, s.sequence), RecursionLimit{RecursionLimit_Depth, limit.depth - 1}, s.stopAt}, nil
 	case RecursionLimit_None:
